@@ -78,6 +78,7 @@ STAGES = {
         ('polyply.src.backmap:Backmap.run_system', 'Backmap'),
         ('polyply.src.topology:Topology.convert_to_vermouth_system', 'convert_to_vermouth_system'),
         ('vermouth.gmx.gro:write_gro', 'write_gro'),
+        ('vermouth.gmx.gro:write_gro@mid', 'write_gro'),
     ],
     'gen_seq': [
         ('polyply.src.gen_seq:MacroString', 'for macro_string in macro_strings'),
@@ -116,7 +117,17 @@ def run_program(prog, wd, outname, fail_target=None, fresh_writer=True):
     if fresh_writer:
         reset_writer()
     hooks = {}
-    if fail_target:
+    if fail_target and fail_target.endswith('@mid'):
+        # failure in the middle of serialisation: the deferred temporary file is already open and partly written
+        def factory_mid(real):
+            def boom(system, outpath, *a, **k):
+                from vermouth.file_writer import deferred_open
+                with deferred_open(outpath, 'w') as fh:
+                    fh.write('PARTIAL CONTENT')
+                    raise Injected(fail_target)
+            return boom
+        hooks[fail_target[:-4]] = factory_mid
+    elif fail_target:
         def factory(real):
             def boom(*a, **k):
                 raise Injected(fail_target)
